@@ -200,7 +200,13 @@ func TableFor(sql string) (string, error) {
 	if err != nil {
 		return "", err
 	}
-	stmt := parsed.(*sqlparser.Select)
+	stmt, ok := parsed.(*sqlparser.Select)
+	if !ok {
+		return "", fmt.Errorf("Only SELECT statements are supported: %v", sql)
+	}
+	if len(stmt.From) == 0 {
+		return "", fmt.Errorf("Missing FROM clause: %v", sql)
+	}
 	return strings.ToLower(nodeToString(stmt.From[0])), nil
 }
 
@@ -210,7 +216,11 @@ func Parse(sql string) (*Query, error) {
 	if err != nil {
 		return nil, fmt.Errorf("Error parsing %v: %v", sql, err)
 	}
-	return parse(parsed.(*sqlparser.Select))
+	stmt, ok := parsed.(*sqlparser.Select)
+	if !ok {
+		return nil, fmt.Errorf("Only SELECT statements are supported: %v", sql)
+	}
+	return parse(stmt)
 }
 
 func parse(stmt *sqlparser.Select) (*Query, error) {
